@@ -147,6 +147,7 @@ pub fn run(plan: &Value, log: bool) -> (RunReport, String) {
         // Only a command the main process accepted while a worker refused it makes the two workers' histories differ
         // legitimately (the successor boots from the main process's state). Which commands the main state accepts is
         // read off a ConfigState of the harness (classification of plans only, never an expected value).
+        let has_replace = ops.iter().any(|r| matches!(r.request_type, Some(RequestType::ReplaceCertificate(_))));
         let accepted_by_state = cfggen::apply_history(&ops).1;
         let all_ok = (0..n_ops).all(|i| !accepted_by_state[i] || r.steps.get(i).map(|s| s.ok()).unwrap_or(false));
         let failed_ops = (0..n_ops).filter(|i| accepted_by_state[*i] && !r.steps.get(*i).map(|s| s.ok()).unwrap_or(false)).count();
@@ -175,7 +176,11 @@ pub fn run(plan: &Value, log: bool) -> (RunReport, String) {
                             if o != n {
                                 // name the first differing top-level part for the key
                                 let what = diff_hint(&pa.iter().find(|(k, _)| k == "0").unwrap().1, &pb.iter().find(|(k, _)| k == "1").unwrap().1);
-                                v.push(Violation::new("roundtrip_mismatch", format!("successor_view_differs|{kind}|{what}"), format!("{l}: predecessor {} / successor {}", o.chars().take(400).collect::<String>(), n.chars().take(400).collect::<String>())));
+                                // plan-level trigger of the recorded ReplaceCertificate findings (CFG-S1/S2 family: the main state and
+                                // the worker's resolver do not do the same thing with a ReplaceCertificate): certificate keys say
+                                // whether the history contains one at all; with one, the differing part is in the detail only
+                                let key = if kind == "certs" && has_replace { format!("successor_view_differs|certs|replace_certificate_in_history") } else { format!("successor_view_differs|{kind}|{what}") };
+                                v.push(Violation::new("roundtrip_mismatch", key, format!("{l} ({what}): predecessor {} / successor {}", o.chars().take(400).collect::<String>(), n.chars().take(400).collect::<String>())));
                             }
                         }
                         (o, n) => { v.push(Violation::new("roundtrip_mismatch", format!("worker_answer_missing|{kind}"), format!("{l}: predecessor answered {}, successor answered {} (status {:?}/{:?})", o.is_some(), n.is_some(), a.final_status(), b.final_status()))); }
